@@ -1759,7 +1759,9 @@ class Parameter(_ParameterBase):
         if obj is not None:
             if not hasattr(obj, '_param__private') or not getattr(obj._param__private, 'initialized', False):
                 return
-            obj.param._update_deps(name)
+            compared = obj.param._update_deps(name)
+        else:
+            compared = None
 
         if obj is None:
             watchers = self.watchers.get("value")
@@ -1777,6 +1779,18 @@ class Parameter(_ParameterBase):
 
         event = Event(what='value', name=name, obj=obj, cls=self.owner,
                       old=_old, new=val, type=None)
+        if compared and obj.param._BATCH_WATCH:
+            # The methods depending on something reached through the object
+            # being replaced are told at the end of the batch: what is
+            # reached now, on the sub-paths their watchers compared
+            reached = {}
+            for path in compared:
+                try:
+                    reached[path] = _reached(_old, *path)
+                except Exception:
+                    pass
+            if reached:
+                event = _QueuedEvent.of(event, reached)
 
         # Copy watchers here since they may be modified inplace during iteration
         try:
@@ -2512,6 +2526,7 @@ class Parameters:
     def _update_deps(self_, attribute=None, init=False):
         obj = self_.self
         init_methods = []
+        compared = []   # sub-paths the replaced watchers of `attribute` compared
         for method, queued, on_init, constant, dynamic in type(obj).param._depends['watch']:
             requeue, places = [], {}
             # On initialization set up constant watchers; otherwise
@@ -2553,6 +2568,12 @@ class Parameters:
                     wobj.param.unwatch(w)
                     if any(w == q for q in wobj.param._state_watchers):
                         requeue.append((wobj, w))
+                    keywords = getattr(w.fn, 'keywords', None) or {}
+                    if wobj is obj and attribute in w.parameter_names and keywords.get('changed') is not None:
+                        for path in _subpaths(Event(w.what, attribute, None, None, None, None, None),
+                                              keywords.get('what', 'value'), keywords['changed']) or []:
+                            if path not in compared:
+                                compared.append(path)
 
             installed = []
             for key, group in grouped.items():
@@ -2597,6 +2618,7 @@ class Parameters:
                             queued.watcher = successor
         for m in init_methods:
             m()
+        return compared
 
     def _resolve_dynamic_deps(self, obj, dynamic_dep, param_dep, attribute):
         """
@@ -3169,12 +3191,14 @@ class Parameters:
 
         if self_._BATCH_WATCH:
             keywords = getattr(watcher.fn, 'keywords', None) if hasattr(watcher.fn, '_watcher_name') else None
-            reached = {}
+            reached = dict(getattr(event, 'reached', None) or {})
             if keywords and keywords.get('changed') is not None:
                 # A method depending on something reached through the
                 # object being replaced: whether that changes is judged at
                 # the end of the batch, against what is reached now
                 for p, what in _subpaths(event, keywords.get('what', 'value'), keywords['changed']) or []:
+                    if (p, what) in reached:
+                        continue
                     try:
                         reached[(p, what)] = _reached(event.old, p, what)
                     except Exception:
